@@ -131,6 +131,29 @@ def rule_z1(ctx, facts):
         ctx.inst("Z1", tr, "finisher election", tr.span, False, "the gate is never set to true")
 
 
+def rule_z13(ctx, facts):
+    """the new table is *published*: the stores / swap of the publication block (next_table := null, table := next, new threshold) are at
+    least Release, so that a thread whose first contact with the finished resize is a load of HashMap.table sees the table's contents
+    (rule H1 of C15 on exactly these effects)"""
+    from .rules_c15 import ordering_of, RANK_STORE
+    tr = facts.body("map::HashMap::transfer")
+    effs = [(c, "next_table.store") for c in tr.calls if is_reclaim_atomic(c) == "store" and ("map::HashMap", "next_table") in receiver_field(tr, c, 0)]
+    effs += [(c, "table.swap") for c in tr.calls if is_reclaim_atomic(c) == "swap" and ("map::HashMap", "table") in receiver_field(tr, c, 0)]
+    effs += [(c, "next_table.swap") for c in tr.calls if is_reclaim_atomic(c) == "swap" and ("map::HashMap", "next_table") in receiver_field(tr, c, 0)]
+    effs += [(c, "size_ctl.store") for c in field_calls(tr, lambda c: is_std_atomic(c) == "store", ("map::HashMap", "size_ctl"))]
+    effs = [(c, w) for c, w in effs if not tr.is_cleanup(c.b)]
+    if len(effs) < 3:
+        ctx.fail_closed("Z13: publication effects of transfer not found")
+        return
+    for c, w in effs:
+        ords = [o for o in (ordering_of(tr, a) for a in c.args) if isinstance(o, str)]
+        ok = bool(ords) and RANK_STORE.get(ords[0], 0) >= 1
+        ctx.inst("Z13", tr, "%s is a publishing write" % w, c.span, ok,
+                 "ordering %s" % ords[0] if ok else
+                 "%s uses ordering %s: its store half does not release what the resize wrote, so a thread that first learns of the new table "
+                 "by loading this word races with the table's construction" % (w, ords[0] if ords else "?"))
+
+
 def rule_z2_z3(ctx, facts):
     tr = facts.body("map::HashMap::transfer")
     ev = evaluator(tr)
@@ -659,6 +682,8 @@ def run(ctx, facts):
                     "and the table can never grow again", floor=3)
     from .rules_c11 import rule_d4
     rule_d4(ctx, facts, rule="Z11")
+    ctx.rule("Z13", "the publication block of transfer writes with at least Release ordering", floor=3)
+    rule_z13(ctx, facts)
     ctx.rule("Z12", "the threshold published after a resize (and after every table allocation) is exactly L - floor(L/4) of the new length (rule K2 of C14)", floor=3)
     from .rules_c14 import rule_k2
     from .rules_c03 import relabelled
